@@ -15,7 +15,7 @@ Not decided: OS scheduling, pickling fidelity, performance.
 """
 import ast
 
-from ..model import Program, walk_own, is_self_attr, dotted
+from ..model import strip_comments, Program, walk_own, is_self_attr, dotted
 from ..report import AnalysisError
 
 PM = "hypnotoad/utils/parallel_map.py"
@@ -47,7 +47,7 @@ def run(rep, tier):
 
 
 def T(mod, node):
-    return " ".join(mod.text(node).split())
+    return " ".join(strip_comments(mod.text(node)).split())
 
 
 def r1(rep, mod, call, worker):
